@@ -105,6 +105,8 @@ class Expr:
         return Expr(f"(Rpow {o.s} {self.s})", lambda env, a=o, b=self: a.v(env) ** b.v(env))
 
     def _cmp(self, o, op, f, swap=False):
+        if isinstance(o, np.ndarray) and o.ndim > 0:     # scalar (cmp) array: elementwise, each element forks on its own
+            return np.array([self._cmp(e, op, f, swap) for e in o.ravel()], dtype=bool).reshape(o.shape)
         o = Expr.of(o)
         a, b = (o, self) if swap else (self, o)
         cond = Expr(f"({a.s} {op} {b.s})", lambda env, a=a, b=b: f(a.v(env), b.v(env)), parts=(a, op, b))
@@ -509,6 +511,17 @@ class SymArray(np.ndarray):
             return self.copy()
         return super().astype(dtype, *a, **k)
 
+    # in-place arithmetic with a symbolic scalar (numpy cannot defer an in-place ufunc to the scalar's reflected operator)
+    def _inplace(self, o, fwd):
+        plain = self.view(np.ndarray)
+        self[...] = fwd(plain, o)
+        return self
+
+    def __itruediv__(self, o): return self._inplace(o, lambda a, b: a / b)
+    def __imul__(self, o): return self._inplace(o, lambda a, b: a * b)
+    def __iadd__(self, o): return self._inplace(o, lambda a, b: a + b)
+    def __isub__(self, o): return self._inplace(o, lambda a, b: a - b)
+
 
 def _sym_nd(name, shape):
     a = np.empty(shape, dtype=object).view(SymArray)
@@ -592,4 +605,88 @@ def selfcheck_tensors(traced, n=10, seed=0):
             got = np.array([Expr.of(arr[idx]).v(env) for idx in np.ndindex(arr.shape)]).reshape(arr.shape)
             if not np.allclose(got, want, rtol=1e-12, atol=1e-300):
                 bad.append(name)
+    return sorted(set(bad))
+
+
+# ------------------------------------------------------------------ utils.apply_gbs (C09), fixed small grain counts
+def trace_gbs(sizes=(2, 3)):
+    """`utils.apply_gbs` run on symbolic textures of 2 and 3 grains: the mask comparisons fork (2^n paths), every path is a
+    straight-line update of the orientation and fraction arrays"""
+    from pydrex import utils as U
+
+    out = {}
+    for n in sizes:
+        A = [sym_matrix(f"A{g}") for g in range(n)]
+        P = [sym_matrix(f"P{g}") for g in range(n)]
+        f = [sym_scalar(f"f{g}") for g in range(n)]
+        chi = sym_scalar("chi")
+
+        def run(n=n, A=A, P=P, f=f, chi=chi):
+            o = np.empty((n, 3, 3), dtype=object).view(SymArray)
+            p = np.empty((n, 3, 3), dtype=object).view(SymArray)
+            for g in range(n):
+                o[g], p[g] = A[g], P[g]
+            fr = np.empty(n, dtype=object).view(SymArray)
+            fr[:] = f
+            o2, f2 = U.apply_gbs(o, fr, chi, p, n)
+            return (np.array(o2, dtype=object), np.array(f2, dtype=object))
+
+        out[n] = explore(run)
+    return out
+
+
+def _mat_text(M):
+    """Lean text of a 3x3 object array; a matrix whose entries are exactly `(X i j)` is printed as `X`"""
+    s00 = Expr.of(M[0, 0]).s
+    m = re.fullmatch(r"\((\w+) 0 0\)", s00)
+    if m and all(Expr.of(M[i, j]).s == f"({m.group(1)} {i} {j})" for i in range(3) for j in range(3)):
+        return m.group(1)
+    body = " ".join(f"| {i}, {j} => {Expr.of(M[i, j]).s}" for i in range(3) for j in range(3))
+    return f"(fun i j => match i, j with {body})"
+
+
+def _gbs_tree_lean(tree):
+    if tree[0] == "leaf":
+        o, f = tree[1]
+        return ("(⟨[" + ", ".join(_mat_text(o[g]) for g in range(o.shape[0])) + "], ["
+                + ", ".join(Expr.of(x).s for x in f) + "]⟩ : Tex)")
+    return f"(if {tree[1].s} then {_gbs_tree_lean(tree[2])} else {_gbs_tree_lean(tree[3])})"
+
+
+def emit_gbs(traced, path=None):
+    lines = ["-- GENERATED on every run by harness/trace/tracer.py from /repo/src/pydrex/utils.py -- do not edit",
+             "import ModelR.Update", "noncomputable section", "namespace ModelR", ""]
+    for n, tree in traced.items():
+        As = " ".join(f"A{g}" for g in range(n))
+        Ps = " ".join(f"P{g}" for g in range(n))
+        fs = " ".join(f"f{g}" for g in range(n))
+        lines.append(f"def traced_applyGbs{n} (chi : ℝ) ({As} {Ps} : Mat3) ({fs} : ℝ) : Tex :=\n  {_gbs_tree_lean(tree)}\n")
+    lines += ["end ModelR", ""]
+    text = "\n".join(lines)
+    path = path or (GEN / "TracedGbs.lean")
+    if not path.exists() or path.read_text() != text:
+        path.write_text(text)
+    return text
+
+
+def selfcheck_gbs(traced, reps=20, seed=0):
+    from pydrex import utils as U
+
+    rng = np.random.default_rng(seed)
+    bad = []
+    for n, tree in traced.items():
+        for _ in range(reps):
+            env = {"chi": float(rng.choice([0.0, 0.3, 0.9]))}
+            f = rng.dirichlet(np.ones(n) * 0.4)
+            for g in range(n):
+                env[f"A{g}"], env[f"P{g}"], env[f"f{g}"] = rng.normal(size=(3, 3)), rng.normal(size=(3, 3)), float(f[g])
+            t = tree
+            while t[0] == "if":
+                t = t[2] if t[1].v(env) else t[3]
+            o, fr = t[1]
+            got_o = np.array([[[Expr.of(o[g][i, j]).v(env) for j in range(3)] for i in range(3)] for g in range(n)])
+            got_f = np.array([Expr.of(x).v(env) for x in fr])
+            want_o, want_f = U.apply_gbs(np.array([env[f"A{g}"] for g in range(n)]), f.copy(), env["chi"], np.array([env[f"P{g}"] for g in range(n)]), n)
+            if not (np.allclose(got_o, want_o, rtol=1e-13, atol=0) and np.allclose(got_f, want_f, rtol=1e-13, atol=0)):
+                bad.append(n)
     return sorted(set(bad))
